@@ -390,3 +390,24 @@ def mirror_section(rep, name, lines, gots, skip_fn=None):
                 rep.first_diffs.append({'section': name + '-ir', 'line': l2[:2000], 'model': m2[:2000], 'impl': gots[i][:2000]})
     if sec['mismatches'] and not any(b.startswith(f'correspondence:{name}-ir') for b in rep.broken):
         rep.broken.append(f'correspondence:{name}-ir ({sec["mismatches"]} of {sec["cases"]} cases differ)')
+
+
+def run_code_section(rep, name, cases, oracle_fn, rule='', kind_fn=None, nontrivial_fn=None):
+    """A section judged on the implementation alone (inputs too long for a protocol line of the model driver, or an entry
+    point the driver has no command for).  oracle_fn(case) -> None | (signature, description[, smaller case for the replay]).
+    Counted in the evidence like a correspondence section; `rule` says what is run and what is demanded."""
+    sec = rep.section(name)
+    sec['rule'] = rule
+    sec['code_only'] = True
+    nontrivial = set()
+    for c in cases:
+        sec['cases'] += 1
+        if kind_fn:
+            k = kind_fn(c)
+            sec['dist'][k] = sec['dist'].get(k, 0) + 1
+        if nontrivial_fn is None or nontrivial_fn(c):
+            nontrivial.add(json.dumps(c, sort_keys=True, default=str))
+        r = oracle_fn(c)
+        if r:
+            rep.add_failure(r[0], r[1], {'section': name, 'case': r[2] if len(r) > 2 else c})
+    sec['distinct_nontrivial'] += len(nontrivial)
